@@ -318,60 +318,94 @@ def check(ctx, run):
             "CHECK_EQUAL_C_UBYTE_LOCATION": "assertEquals", "CHECK_EQUAL_C_SBYTE_LOCATION": "assertEquals", "CHECK_EQUAL_C_STRING_LOCATION": "assertCstrEqual",
             "CHECK_EQUAL_C_POINTER_LOCATION": "assertPointersEqual", "CHECK_EQUAL_C_MEMCMP_LOCATION": "assertBinaryEqual", "CHECK_EQUAL_C_BITS_LOCATION": "assertBitsEqual",
             "FAIL_TEXT_C_LOCATION": "fail", "FAIL_C_LOCATION": "fail", "CHECK_C_LOCATION": "assertTrue"}
+    # each entry point folded on operand vectors (boundary values of its own parameter types) against recording stubs of the assert
+    # family: exactly one call, of the assert of its kind, on the current test, with the operands' mathematical values unchanged and in
+    # (expected, actual[, third]) order, the caller's text / file / line, and the terminator that leaves by longjmp
+    CUR, TERM, TEXT, FILE_, LINE, CONDSTR = 555, 556, ("str", "TEXT"), ("str", "FILE.c"), 4242, ("str", "cond-string")
+    TRAIL = {"text": TEXT, "fileName": FILE_, "lineNumber": LINE, "conditionString": CONDSTR}
     for cname, meth in sorted(CTAB.items()):
         f = prog.fn(cname)
         run.analysed(f)
+        ops = [q for q in f.params if q["name"] not in TRAIL]
+        if len(ops) + sum(1 for q in f.params if q["name"] in TRAIL) != len(f.params) or not {"fileName", "lineNumber"} <= {q["name"] for q in f.params}:
+            raise AnalysisBroken("C03.R3: %s has parameters the rule does not know: %s" % (cname, [q["name"] for q in f.params]))
+
+        def lattice(q):
+            ct = q["ct"]
+            rng = type_range(prog, ct)
+            if rng is not None:
+                lo, hi = rng
+                return sorted({lo, hi, 0, 1, 65, hi // 2 + 1} | ({-1} if lo < 0 else set()))
+            if ct == "double":
+                return [0.0, 1.5, -2.25]
+            if ct.replace("const ", "").strip() == "char *":
+                return [("str", "exp"), ("str", "act"), 0]
+            if ct.endswith("*"):
+                return [7001, 7002, 0]
+            raise AnalysisBroken("C03.R3: %s: operand type %s is not modelled" % (cname, ct))
+        lats = [lattice(q) for q in ops]
+        # (expected, actual) run over the full square of their lattice, further operands over their own
+        vectors = [tuple(v) for v in itertools.product(*lats)] if len(ops) <= 2 else [tuple(v) for v in itertools.product(lats[0][:4], lats[1][:4], *[l_[-3:] for l_ in lats[2:]])]
         why = []
-        for p in enumerate_paths(f):
-            cs = [c for c in path_calls(prog, f, p) if (prog.callee_name(f, c) or "").startswith(shell + "::assert") or (prog.callee_name(f, c) or "") == shell + "::fail"]
-            if len(cs) != 1 or prog.callee_name(f, cs[0]) != "%s::%s" % (shell, meth):
-                why.append("calls %s, expected exactly one %s" % ([prog.callee_name(f, c) for c in cs], meth))
-                continue
-            c = cs[0]
-            if render(f, f.node(c.get("obj"))).replace(shell + "::", "") != "getCurrent()":
+        for vec in vectors:
+            seen = []
+
+            def rec(name):
+                return lambda *a_: (seen.append((name,) + tuple(a_)), 0)[1]
+            hooks = string_hooks({"UtestShell::getCurrent": lambda *a_: CUR, "UtestShell::getCurrentTestTerminatorWithoutExceptions": lambda *a_: TERM, "UtestShell::getCurrentTestTerminator": lambda *a_: 557,
+                                  "StringFrom": lambda *a_: ("str", "<%s>" % (a_[-1],))})
+            for g in prog.functions.values():
+                if g.qn.startswith(shell + "::assert") or g.qn == shell + "::fail":
+                    hooks[g.qn] = rec(g.name)
+            env = {q["name"]: TRAIL[q["name"]] for q in f.params if q["name"] in TRAIL}
+            env.update({q["name"]: v for q, v in zip(ops, vec)})
+            ev = Evaluator(prog, f, env=env, calls=hooks)
+            ev.pass_object = True
+            ev.inline = {g.qn for g in prog.functions.values() if g.cls is None and g.file == f.file} - set(hooks)
+            try:
+                ev.run_blocks(f.entry, max_steps=600)
+            except Unknown as u:
+                raise AnalysisBroken("C03.R3: %s cannot be folded on %s: %s" % (cname, vec, u))
+            if len(seen) != 1 or seen[0][0] != meth:
+                why.append("on %s: calls %s, expected exactly one %s" % (vec, [x[0] for x in seen], meth))
+                break
+            call = seen[0]
+            if call[1] != CUR:
                 why.append("not called on the current test")
-            args = f.args(c)
-            term = render(f, args[-1]).replace(shell + "::", "")
-            if term != "getCurrentTestTerminatorWithoutExceptions()":
-                why.append("terminator is %s: a C test body must leave by longjmp" % term)
-            g = prog.functions.get(c["callee"]["mn"])
-            gp = [q["name"] for q in g.params] if g else []
-            pts = {q["name"]: q["ct"] for q in f.params}
-            for q, a in zip(g.params if g else [], args):
-                if q["name"] in ("expected", "actual") and q["ct"] == "const char *" and meth == "assertEquals":
-                    used = {x["name"] for x in f.walk(a) if x["k"] == "DeclRefExpr" and x.get("dk") == "ParmVar"}
-                    if used != {q["name"]}:
-                        why.append("text for %s is built from %s" % (q["name"], render(f, a)))
-                    continue
-                if q["name"] in ("expected", "actual", "threshold", "mask", "length", "byteCount"):
-                    leaf, chain = cast_chain(f, a)
-                    if leaf is None or leaf["k"] != "DeclRefExpr":
-                        why.append("argument for %s is %s, not a parameter" % (q["name"], render(f, a)))
-                        continue
-                    want = {"length": ("size", "length"), "byteCount": ("size", "byteCount")}.get(q["name"], (q["name"],))
-                    if leaf["name"] not in want:
-                        why.append("parameter %s is passed as %s" % (leaf["name"], q["name"]))
-                    rng = type_range(prog, pts.get(leaf["name"], ""))
-                    if rng is not None:
-                        ok, _, lossy = apply_chain(prog, rng, chain)
-                        if not ok:
-                            why.append("%s is converted %s -> %s, which does not preserve every value" % (leaf["name"], lossy[1], lossy[2]))
+                break
+            args = list(call[2:])
+            if args[-1:] != [TERM]:
+                why.append("terminator is not the longjmp terminator: a C test body must leave by longjmp")
+                break
+            tail_want = [TRAIL[q["name"]] for q in f.params if q["name"] in TRAIL and q["name"] != "conditionString"]
+            if cname == "FAIL_C_LOCATION":
+                tail_want = [("str", "")] + tail_want
+            if args[-1 - len(tail_want):-1] != tail_want:
+                why.append("text / file / line reach the assert as %s, the caller's are %s" % (args[-1 - len(tail_want):-1], tail_want))
+                break
+            head = args[:-1 - len(tail_want)]
             if meth == "assertEquals":
-                # fold the failed-flag expression over operand values: it must be exactly "the operands differ"
                 is_bool = "BOOL" in cname
-                lat = (0, 1, 2, -1) if is_bool else ((0, 1, 65, 127, 200, 255) if "UBYTE" in cname else (0, 1, 65, 127, -1, -128))
-                for e_, a_ in itertools.product(lat, lat):
-                    ev = Evaluator(prog, f, env={"expected": e_, "actual": a_})
-                    try:
-                        got = ev.ev(args[0])
-                    except Unknown as u:
-                        got = "unknown: %s" % u
-                    want = int(bool(e_) != bool(a_)) if is_bool else int(e_ != a_)
-                    if got != want:
-                        why.append("failed flag for (expected=%d, actual=%d) folds to %s, expected %d" % (e_, a_, got, want))
-                        break
-            if meth == "assertTrue":
-                v, conv = strip_value(f, args[0])
-                if render(f, v) != "condition" or not conv:
-                    why.append("condition passed as %s" % render(f, args[0]))
-        run.ob("R3", "%s -> %s" % (cname, meth), f.site, not why, witness=why or "forwards in order with value-preserving conversions and the longjmp terminator", what="; ".join(why))
+                e_, a_ = vec[0], vec[1]
+                wantf = int(bool(e_) != bool(a_)) if is_bool else int(e_ != a_)
+                wt = [("str", "true" if e_ else "false"), ("str", "true" if a_ else "false")] if is_bool else [("str", "<%s>" % e_), ("str", "<%s>" % a_)]
+                if len(head) != 3 or int(bool(head[0])) != wantf or head[0] not in (0, 1, True, False):
+                    why.append("failed flag for (expected=%s, actual=%s) is %s, expected %d" % (e_, a_, head[:1], wantf))
+                    break
+                if head[1:] != wt:
+                    why.append("for (expected=%s, actual=%s) the texts shown are %s, expected %s in (expected, actual) order" % (e_, a_, head[1:], wt))
+                    break
+            elif meth == "assertTrue":
+                if not head or head[0] not in (0, 1, True, False) or int(bool(head[0])) != int(vec[0] != 0) or CONDSTR not in head[1:]:
+                    why.append("condition %s reaches assertTrue as %s" % (vec[0], head))
+                    break
+            elif meth == "fail":
+                if head:
+                    why.append("fail called with %s" % (head,))
+                    break
+            else:
+                same = len(head) == len(vec) and all((h == v and type(h) == type(v)) or (isinstance(h, (int, float)) and isinstance(v, (int, float)) and not isinstance(h, bool) and h == v) for h, v in zip(head, vec))
+                if not same:
+                    why.append("operands %s reach %s as %s: not the same values in (expected, actual%s) order" % (vec, meth, tuple(head), ", ..." if len(vec) > 2 else ""))
+                    break
+        run.ob("R3", "%s -> %s (folded on %d operand vectors)" % (cname, meth, len(vectors)), f.site, not why, witness=why or "forwards in order with the values unchanged and the longjmp terminator", what="; ".join(why))
